@@ -8,10 +8,13 @@ constant specific yield sigma (a storm of total depth D raises the level by
 D / sigma).  Every recession interval of the record is a piece of the curve,
 every storm follows the storage curve.
 """
+import bisect
 import math
 import os
 import sqlite3
 from fractions import Fraction
+
+os.environ.setdefault('OPENBLAS_NUM_THREADS', '1')   # (before numpy is loaded: a busy machine makes threaded BLAS 100x slower on large cases)
 
 from harness import common as C
 from harness import dataset as D
@@ -23,7 +26,7 @@ GRID_STEPS = [0.5, 1.0, 2.0, 2.5]
 
 
 def make_plan(rng, n_events=None, step=None, grid_step=None, varying_et=True, noise=False, gaps=False, odd_steps=False,
-              tie_top=False, light_equal=False, top_cell=False, far_group=False):
+              tie_top=False, light_equal=False, top_cell=False, far_group=False, plunge=False):
     """tie_top: two recessions start from exactly the same highest level of the record (two events share the
     minimal m_after).  light_equal: the light-rain step after each storm has an intensity exactly EQUAL to the
     storm threshold (which is then a short dyadic number, so that the text files, SQLite and the command line
@@ -34,6 +37,10 @@ def make_plan(rng, n_events=None, step=None, grid_step=None, varying_et=True, no
     far_group: after the other events the level recedes far below everything seen so far and 1-2 more storms
     happen down there: their rises share no grid level with the rises of the main body (see add_far_group;
     plan['far_group'] = number of such storms).
+    plunge: every few lattice steps the recession curve drops by 130-400 (sometimes > 1024) GRID LEVELS within one time step (a coarse
+    time step - pass step=86400 or 604800 - or a fine grid: a single falling segment, and the rises that undo it,
+    pass hundreds of grid levels); the jump threshold is lowered so that every planned rise still exceeds it
+    (plan['plunge'] = lattice indices of the big drops).
     All default to off; they draw random numbers only when on, after every other draw."""
     step = step or rng.choice(STEPS + ODD_STEPS if odd_steps else STEPS)
     step_h = step / 3600.0
@@ -83,7 +90,120 @@ def make_plan(rng, n_events=None, step=None, grid_step=None, varying_et=True, no
         place_top_cell(rng, plan, M)
     if far_group:
         add_far_group(rng, plan)
+    if plunge:
+        add_plunges(rng, plan)
     return plan
+
+
+def add_plunges(rng, plan):
+    """Replace every 4th-7th decrement of the lattice by a drop of 130-400 (one in five: 1025-1099) grid levels (plus
+    a fraction of a level)."""
+    L, g = plan['lattice'], plan['grid_step']
+    decs = [a - b for a, b in zip(L, L[1:])]
+    where = []
+    j = rng.randrange(0, 4)
+    while j < len(decs):
+        n = rng.randrange(130, 401) if rng.random() < 0.8 else rng.randrange(1025, 1100)
+        decs[j] = (n + rng.choice([0.0, 0.25, 0.5, 0.75])) * g
+        where.append(j)
+        j += rng.randrange(4, 8)
+    lat = [L[0]]
+    for d in decs:
+        lat.append(lat[-1] - d)
+    plan['lattice'] = lat
+    plan['plunge'] = where
+    plan['large'] = True          # thousands of crossings: judged by the oracle, not sent to the exact model in Coq
+    plan['thr_j'] = min(plan['thr_j'], 0.25 / plan['step_h'])
+
+
+def make_rowcount_plan(rng, rows, grid_step=None, step=None):
+    """A record whose RISE curve is stored in exactly `rows` crossing rows (rising_interval_zeta): n storms (3-7) rise
+    through the same N = ceil(rows/n) grid levels, n*N - rows of them one level less (they stop one level below the
+    others, or start one level above them); every level is still crossed by >= 2 storms.  Storm peaks and troughs
+    sit half a grid step off the grid lines.  rain_noise: the storms' depths deviate by up to 3% from the storage
+    curve (the aligned rises do not coincide, so every stored row matters for the level means).  Same plan format as
+    make_plan; plan['rows'] = (target, n, N, short, where); plan['large'] = True (views not sent to Coq)."""
+    g = grid_step or rng.choice([0.1, 0.2, 0.3, 0.5])
+    step = step or rng.choice(STEPS)
+    ns = [3, 4, 5, 6, 7]
+    rng.shuffle(ns)
+    for n in ns + [2]:
+        N = -(-rows // n)
+        short = n * N - rows
+        if n - short >= 2 and N >= 3:
+            break
+    where = rng.choice(['top', 'bottom']) if short else None
+    k_top = rng.choice([-101, 0, 12, -3000])
+    lattice = [(k_top + 0.5) * g, (k_top - 0.5) * g]
+    left = N - 3                       # levels between L[1] and L[M-1]
+    n_steps = rng.randrange(10, 18)
+    k = k_top - 1
+    for i in range(n_steps):
+        d = left // (n_steps - i) if i < n_steps - 1 else left
+        left -= d
+        if d > 0:
+            k -= d
+            lattice.append((k + 0.5) * g)
+    lattice.append((k_top - N + 1.5) * g)
+    lattice.append((k_top - N + 0.5) * g)
+    lattice = sorted(set(lattice), reverse=True)
+    M = len(lattice) - 1
+    which = set(rng.sample(range(n), short))
+    events = []
+    lead = rng.randrange(1, 3)
+    m = M - 1 if (0 in which and where == 'bottom') else M
+    for e in range(n):
+        m_after = 1 if (e in which and where == 'top') else 0
+        nxt = M - 1 if (e + 1 in which and where == 'bottom') else M
+        events.append(dict(m_before=m, m_after=m_after, k=rng.randrange(1, 4), over=0.0,
+                           rec_len=(nxt - m_after) if e < n - 1 else rng.randrange(4, M - 1)))
+        m = nxt
+    return dict(step=step, sigma=rng.choice([0.25, 0.5, 0.125]), thr_j=rng.choice([2.0, 4.0, 5.0]), lattice=lattice,
+                events=events, t0=rng.choice([1361318400, 1356998400, 946684800]) // step * step, grid_step=g,
+                et=[round(0.05 + 0.01 * rng.randrange(0, 20), 4) for _ in range(400)], lead_dry=lead, step_h=step / 3600.0,
+                gap=None, noise=[0.0], rain_noise=[rng.randrange(-8, 9) / 256.0 for _ in range(n)], large=True,
+                rows=dict(target=rows, storms=n, levels=N, short=short, where=where))
+
+
+def make_chain_plan(rng, n_chain=None, n_long=None, long_levels=None, grid_step=None, step=None):
+    """A record whose recession alignment is ILL-CONDITIONED but connected: `n_long` long recessions from the top of
+    the curve that share `long_levels`+ grid levels (a steep zone in which single steps pass 12-330 levels), then a
+    staircase of `n_chain` short recessions low on the curve (4 samples, two grid levels each), each sharing exactly
+    ONE grid level with the next; every storm is one step of rain.  The staircase rises cross one level each, all
+    different: only the long rises form the rising curve.  Same plan format as make_plan (noise-free, no gaps);
+    plan['large'] = True (too large for the exact model in Coq: the oracle judges it)."""
+    n_chain = n_chain or rng.randrange(600, 901)
+    n_long = n_long or rng.randrange(2, 5)
+    long_levels = long_levels or rng.randrange(1200, 2001)
+    g = grid_step or rng.choice([0.1, 0.25, 0.5])
+    step = step or rng.choice([3600, 1800, 86400])
+    step_h = step / 3600.0
+    k_top = rng.choice([0, -40, 75])
+    lattice = [(k_top + 0.5) * g]
+    levels = 0
+    while levels < long_levels:
+        n = rng.choice([12, 25, 25, 160, 270, 330])
+        lattice.append(lattice[-1] - n * g)
+        levels += n
+    lattice.append(lattice[-1] - (rng.choice([3, 17]) + 0.25) * g)        # first sample of the slow zone: a quarter above a grid line
+    S = len(lattice) - 1
+    for _ in range(n_chain + 3):
+        d1 = rng.choice([0.375, 0.5, 0.625])
+        lattice.append(lattice[-1] - d1 * g)
+        lattice.append(lattice[-2] - g)
+    lead = rng.randrange(1, 3)
+    events = []
+    m = rng.randrange(lead, min(S, lead + 3))
+    for _ in range(n_long):
+        events.append(dict(m_before=m, m_after=0, k=1, over=0.0, rec_len=S + 4))
+        m = S + 4
+    for i in range(n_chain):
+        events.append(dict(m_before=m, m_after=S + 2 * i, k=1, over=0.0, rec_len=4))
+        m = S + 2 * i + 4
+    return dict(step=step, sigma=rng.choice([0.25, 0.5, 0.125]), thr_j=0.5 * g / step_h, lattice=lattice, events=events,
+                t0=rng.choice([1361318400, 1356998400, 946684800]) // step * step, grid_step=g,
+                et=[round(0.05 + 0.01 * rng.randrange(0, 20), 4) for _ in range(400)], lead_dry=lead, step_h=step_h, gap=None,
+                noise=[0.0], large=True, chain=dict(n_chain=n_chain, n_long=n_long, long_levels=levels))
 
 
 def top_cell_stats(plan):
@@ -241,6 +361,9 @@ def realise(plan):
         start_idx = len(zeta) - 1
         for j in range(k):
             r = sigma * (H / k) / step_h
+            if plan.get('rain_noise'):
+                # the gauge over/under-catches this storm by a few percent: the rises no longer lie on ONE storage curve
+                r *= 1.0 + plan['rain_noise'][len(rises) % len(plan['rain_noise'])]
             rain.append(r)
             heavy.append(r)
             zeta.append(zi + H * (j + 1) / k if j < k - 1 else zf)
@@ -458,14 +581,29 @@ def build_dataset(prop, rng, steps=('rise', 'recession'), **kw):
 
 def truth_time_of_level(plan, h):
     """Time (in steps, Fraction) at which the underlying recession curve crosses level h."""
-    L = [Fraction(v) for v in plan['lattice']]
+    L, neg = _lattice_fractions(plan['lattice'])
     h = Fraction(h)
-    for m in range(len(L) - 1):
-        if L[m + 1] < h <= L[m] or (h == L[m + 1] and m + 1 == len(L) - 1):
-            return m + (L[m] - h) / (L[m] - L[m + 1])
-    if h == L[-1]:
-        return Fraction(len(L) - 1)
-    return None
+    m = bisect.bisect_right(neg, -h) - 1          # number of lattice levels >= h, minus one (the lattice decreases strictly)
+    if m < 0:
+        return None
+    if m == len(L) - 1:
+        return Fraction(m) if h == L[-1] else None
+    return m + (L[m] - h) / (L[m] - L[m + 1])
+
+
+_LATTICE_CACHE = {}
+
+
+def _lattice_fractions(lattice):
+    """(lattice as fractions, their negatives ascending), cached per lattice (keyed by its values)."""
+    key = tuple(lattice)
+    hit = _LATTICE_CACHE.get(key)
+    if hit is None:
+        if len(_LATTICE_CACHE) > 8:
+            _LATTICE_CACHE.clear()
+        L = [Fraction(v) for v in lattice]
+        hit = _LATTICE_CACHE[key] = (L, [-v for v in L])
+    return hit
 
 
 # ------------------------------------------------------------------ the views against their Coq model
